@@ -463,6 +463,13 @@ func validateNonEmptyWithAllowNil(v interface{}, _ string, allowNil bool) error 
 	}
 
 	val := reflect.ValueOf(v)
+	if val.Kind() == reflect.String {
+		// a named string type (type T string)
+		if val.Len() == 0 {
+			return ErrStringEmpty
+		}
+		return nil
+	}
 	if val.Kind() == reflect.Array || val.Kind() == reflect.Slice {
 		if val.Kind() == reflect.Slice && val.IsNil() {
 			if allowNil {
